@@ -3,7 +3,7 @@ import ast
 import re
 
 from ..core.tree import AnalysisError
-from ..core.constfold import Folder
+from ..core.constfold import Folder, Stub
 from ..core.astutil import walk_no_nested, call_name, short, src
 
 SAMI = "pycaption/sami.py"
@@ -56,18 +56,32 @@ def run(ctx, report):
     dr = ctx.index.get_function(DFXP, "DFXPReader._convert_style")
     for f in (dw, dr):
         report.covered(f)
-    tw = src(dw.node)
-    tr = src(dr.node)
-    ok_w = re.search(r"if 'italics' in content:\s+dfxp_style\['tts:fontStyle'\] = 'italic'", tw) is not None
-    ok_r = re.search(r"arg\.lower\(\) == 'tts:fontstyle' and dfxp_attrs\[arg\] == 'italic':\s+attrs\['italics'\] = True", tr) is not None
-    report.check(ok_w and ok_r, "R-TABLE-INVERSE", dw, "DFXP: italics <-> tts:fontStyle=\"italic\"", {"writer": ok_w, "reader": ok_r}, "1")
+    # both directions are folded (constant evaluation of the source on stub objects)
+    def write_(content):
+        try:
+            return folder.call_function(dw, [dict(content), Stub("dfxp-document", {}, {"find": lambda *a, **k: None})])
+        except AnalysisError as e:
+            raise AnalysisError(f"DFXP _recreate_style cannot be folded: {e}")
+
+    def read_(attrs):
+        try:
+            return folder.call_function(dr, [Stub("tag", {"attrs": dict(attrs), "name": "span"})], self_value=Stub("reader"))
+        except AnalysisError as e:
+            raise AnalysisError(f"DFXPReader._convert_style cannot be folded: {e}")
+    wi = write_({"italics": True})
+    ri = read_(wi) if isinstance(wi, dict) else None
+    report.check(wi == {"tts:fontStyle": "italic"} and ri == {"italics": True}, "R-TABLE-INVERSE", dw,
+                 "DFXP: italics <-> tts:fontStyle=\"italic\"", {"written": wi, "read_back": ri}, "1")
     pairs = {"font-family": "tts:fontFamily", "font-size": "tts:fontSize", "color": "tts:color", "text-align": "tts:textAlign"}
     bad = []
     for key, attr in pairs.items():
-        if not re.search(rf"if '{key}' in content:\s+dfxp_style\['{attr}'\] = content\['{key}'\]", tw):
-            bad.append(f"writer {key}")
-        if not re.search(rf"arg\.lower\(\) == '{attr.lower()}':\s+attrs\['{key}'\] = dfxp_attrs\[arg\]", tr):
-            bad.append(f"reader {key}")
+        wv = write_({key: "V1"})
+        if wv != {attr: "V1"}:
+            bad.append({"writer": key, "written": wv})
+            continue
+        rv = read_(wv)
+        if rv != {key: "V1"}:
+            bad.append({"reader": attr, "read_back": rv})
     report.check(not bad, "R-TABLE-INVERSE", dw, "DFXP: font-family / font-size / color / text-align use the same attribute both ways",
                  {"mismatches": bad}, "1")
     # WebVTT
